@@ -8,14 +8,14 @@ HOOKS = [l.split()[0] for l in subprocess.run(["git", "-C", "/repo", "log", "--f
 MC = "model_checking"
 EX = "exploration"
 CHECKS = {
- "C01": (MC, "TLC enumerates pattern families exhaustively and judges every (pattern, haystack, start) observation of the real engine against the TLA+ transcription of ECMA-262's ordered search (ESSem.tla); thorough additionally runs both machine specifications on the dumped bytecode. Exhaustive within the families' bounds (depth <= 3, haystack <= 3-5), not beyond.",
-         "TLC-judged exhaustive replay against TLA+ reference semantics (ESSem) + TLC model checking of dumped bytecode", "5 C01",
+ "C01": (MC, "TLC enumerates pattern families exhaustively and judges every (pattern, haystack, start) observation of the real engine against the TLA+ transcription of ECMA-262's ordered search (ESSem.tla); the tree (IR) the real parser produced for every pattern (hook ir_trace_json) is judged by TLC to mean, under IRSem.tla, what the pattern means under ESSem.tla, and to be well formed; the dumped no_opt program is compared with the emitter specifications (Compile.tla from the pattern, Emit.tla from the tree). Exhaustive within the families' bounds (depth <= 3, haystack <= 3-5), not beyond.",
+         "TLC-judged exhaustive replay against TLA+ reference semantics (ESSem) + TLC-judged recorded IR trees against IRSem + emitter specifications compared with dumped programs", "5 C01",
          "ESSem.tla is a hand transcription of ECMA-262 22.2.2; Alphabet.tla case data transcribed from the UCD; known deviations D8/D9/D10 are modelled as named deviations and reported as KNOWN-FINDING only when the observation equals the spec with exactly that deviation"),
  "C02": (MC, "Both executors are specified as TLA+ state machines (BacktrackVM.tla, PikeVM.tla); TLC runs them on the programs dumped from the real compiler and checks BT = Pike = engine for every haystack, validates recorded executor runs step by step against the machines (MCVM.tla, real Next relation, invariants on every state), and the runner compares the two real executors on every enumerated case in UTF-8 and ASCII modes.",
          "TLC model checking of dumped bytecode on two TLA+ machine specs + lock-step trace validation + exhaustive differential replay", "5 C02",
          "the program dump hook shows the program the executors run; trace-shape mismatches are diagnostics, not verdicts"),
- "C03": (MC, "Every enumerated pattern is compiled with and without the optimizer; match sequences from every start offset are compared with each other and with the TLA+ reference (so a defect common to both pipelines is not masked).",
-         "TLC-judged exhaustive replay of optimizing vs no_opt pipelines against ESSem", "5 C03",
+ "C03": (MC, "Every enumerated pattern is compiled with and without the optimizer; match sequences from every start offset are compared with each other and with the TLA+ reference (so a defect common to both pipelines is not masked). The optimizer is specified in TLA+ (OptPasses.tla: the seven passes as rewrite rules; Optimizer.tla: optimize as a state machine) and bound through the IR trace hook: TLC judges that every recorded stage of every pattern means what the parsed tree means (IRSem.tla) and is well formed, compares the recorded run with the specification's stage by stage, and model-checks Optimizer.tla from a sample of the recorded parsed trees (meaning preserved in every state, termination, last tree = the recorded one).",
+         "TLC-judged exhaustive replay of optimizing vs no_opt pipelines against ESSem + trace validation of recorded optimizer stages against the TLA+ optimizer specification and IR semantics + TLC model checking of Optimizer.tla", "5 C03",
          "families are chosen per optimizer pass; bounded haystack length"),
  "C05": (MC, "Step and stack measurements of the real executors (hooks) on all nested-quantifier patterns are bounded by TLC against the cost of the reference search (ESSem.SearchCost); both machine specs are run to completion on the dumped programs under fuel; sampled runs are validated step by step with the stack bound as an invariant. Non-termination shows as fuel exhaustion, attributed to its case.",
          "TLC-computed reference search cost bounds hook-measured steps/stack + TLC machine runs on dumped bytecode + trace validation", "5 C05",
@@ -27,8 +27,8 @@ CHECKS = {
          "TLC-judged exhaustive replay against the TLA+ iteration contract", "5 C09", "bounded haystack length"),
  "C13": (MC, "On every all-ASCII haystack of every enumerated case the four ASCII variants (both executors, both pipelines) are compared with their UTF-8 counterparts from every start offset; the UTF-8 side is itself judged by TLC against ESSem.",
          "TLC-judged exhaustive replay, ASCII vs UTF-8 entry points", "5 C13", "patterns mention non-ASCII characters and fold partners; haystacks are ASCII by the property's premise"),
- "C04": (MC, "The start predicate the compiler actually derived is taken from the program dump and TLC checks that it admits every character boundary at which the BacktrackVM specification's anchored attempt on that program succeeds (all offsets, also after the first match); the hook rebuilds each program with StartPredicate::Arbitrary and the full match sequences from every start offset are compared on both executors.",
-         "TLC model checking of the dumped start predicate against the BacktrackVM spec + differential replay with the predicate removed", "5 C04",
+ "C04": (MC, "The start predicate the compiler actually derived is taken from the program dump and TLC checks that it admits every character boundary at which the BacktrackVM specification's anchored attempt on that program succeeds (all offsets, also after the first match); the hook rebuilds each program with StartPredicate::Arbitrary and the full match sequences from every start offset are compared on both executors. Search.tla specifies the leftmost search with a prefilter as a state machine; TLC model-checks it for every attempt table x predicate table (sound predicate => leftmost match, nothing admitted passed over; unsound predicate => counterexample) and MCVM.tla validates the attempt brackets of recorded runs against it.",
+         "TLC model checking of the dumped start predicate against the BacktrackVM spec + TLC model checking of Search.tla + trace validation of recorded searches + differential replay with the predicate removed", "5 C04",
          "the dumped predicate is the one the executor uses; utf16 builds (prefilter disabled) are covered by C15"),
  "C16": (MC, "MatchAPI.tla defines every accessor as a function of (range, captures, names); TLC judges the recorded accessor values of every match of the enumerated named / duplicate-named / capture families against it, with names numbered by the specification.",
          "TLC-judged exhaustive replay against the MatchAPI TLA+ specification", "5 C16", "captures themselves are judged by C01"),
